@@ -28,6 +28,10 @@ def one(prop):
 
 
 def main():
+    # --anchored: run only the properties whose anchor directories the patch touches (and the property
+    # the refactoring was written for) — what the thorough tier replays; the default runs all 20
+    anchored = "--anchored" in sys.argv
+    sys.argv = [a for a in sys.argv if a != "--anchored"]
     ids = sys.argv[1:] or sorted(d for d in os.listdir(ROOT + "/benign") if os.path.isdir(ROOT + "/benign/" + d))
     rc, o = sh("git -C /repo status --porcelain")
     if o.strip():
@@ -49,8 +53,13 @@ def main():
                 results[i] = {"property": own, "status": "patch does not apply to /repo HEAD", "alarms": {}}
                 print("%-12s %s" % (i, "patch does not apply"))
                 continue
+            pfiles = [l[6:].strip() for l in open(d + "/patch.diff") if l.startswith("+++ b/")]
+            pdirs = {os.path.dirname(f) for f in pfiles}
+            todo = PROPS
+            if anchored:
+                todo = sorted({own} | {p for p in PROPS if anchor_dirs[p] & pdirs})
             with ThreadPoolExecutor(max_workers=8) as ex:
-                outs = list(ex.map(one, PROPS))
+                outs = list(ex.map(one, todo))
         finally:
             sh("git -C /repo checkout -- .")
             sh("git -C /repo clean -fdq")
